@@ -280,14 +280,18 @@ def integer_bounds_case():
     X = rs.randn(30, 3) * 2
     idx = np.array([rs.choice(30, 2, replace=False) for _ in range(16)])
     P, y = X[idx], np.array([1, -1] * 8)
-    for lo, hi in ((2, 9), (1, 3), (1, 20)):
+    for lo, hi in ((2, 9), (1, 3), (1, 20), (0, 9), (0, 3)):   # a zero bound is documented to be replaced by 1e-9, whatever its dtype
       for gamma in (1.0, 10.0):
         with warnings.catch_warnings():
           warnings.simplefilter('ignore')
           ref = ITML(gamma=gamma, max_iter=20).fit(P, y, bounds=[float(lo), float(hi)])
           for nm, b in (('list', [lo, hi]), ('int64_array', np.array([lo, hi])), ('int32_array', np.array([lo, hi], dtype=np.int32))):
             b_keep = np.array(b).copy()
-            est = ITML(gamma=gamma, max_iter=20).fit(P, y, bounds=b)
+            try:
+              est = ITML(gamma=gamma, max_iter=20).fit(P, y, bounds=b)
+            except ValueError as e:
+              ctx.require('integer_bounds_%s_same_model' % nm, ctx.cond(False))
+              continue
             ctx.require('integer_bounds_%s_same_model' % nm, ctx.cond(np.allclose(est.components_, ref.components_, rtol=1e-7, atol=1e-9)))
             ctx.require('integer_bounds_%s_untouched' % nm, ctx.cond(np.array_equal(np.array(b), b_keep)))
   return fn
